@@ -51,19 +51,26 @@ structure PrintCfg where
   openBound : Bool
   /-- `nodes.MAX_REPETITIONS` (what `Repetition.max` returns for an open bound) -/
   cap : Nat
+  /-- the operator characters `Star/Plus/Option.format_as_spec` append -/
+  starTok : PTok
+  plusTok : PTok
+  optTok : PTok
   deriving DecidableEq, Repr
 
 /-- the printer of the current code (after ec9ecf03) -/
 def PrintCfg.fixed (cap : Nat) : PrintCfg :=
-  { altParens := true, parenCat := true, parenRep := true, parenAlt := false, openBound := true, cap := cap }
+  { altParens := true, parenCat := true, parenRep := true, parenAlt := false, openBound := true, cap := cap,
+    starTok := .star, plusTok := .plus, optTok := .quest }
 
 /-- the printer before ec9ecf03: operands never parenthesised, open bounds printed with the cap -/
 def PrintCfg.preFix (cap : Nat) : PrintCfg :=
-  { altParens := true, parenCat := false, parenRep := false, parenAlt := false, openBound := false, cap := cap }
+  { altParens := true, parenCat := false, parenRep := false, parenAlt := false, openBound := false, cap := cap,
+    starTok := .star, plusTok := .plus, optTok := .quest }
 
 /-- the choices under which `read ∘ print` is the identity up to `norm` -/
 def PrintCfg.Sound (c : PrintCfg) : Prop :=
   c.altParens = true ∧ c.parenCat = true ∧ c.parenRep = true ∧ c.parenAlt = false ∧ c.openBound = true
+    ∧ c.starTok = .star ∧ c.plusTok = .plus ∧ c.optTok = .quest
 
 instance (c : PrintCfg) : Decidable c.Sound := by unfold PrintCfg.Sound; exact inferInstance
 
@@ -77,9 +84,9 @@ def needsParen (c : PrintCfg) : Node → Bool
 /-- the postfix token of a repetition -/
 def suffixTok (c : PrintCfg) (k : RepKind) (mn : Nat) (mx : Option Nat) : PTok :=
   match k with
-  | .star => .star
-  | .plus => .plus
-  | .opt => .quest
+  | .star => c.starTok
+  | .plus => c.plusTok
+  | .opt => c.optTok
   | .braces =>
     match mx with
     | none =>
